@@ -115,11 +115,45 @@ class TreeGen:
         """Apply one random edit in place; returns its name (or None if not applicable)."""
         rng = self.rng
         k = kind or rng.choice(["add", "add", "modify", "modify", "exec", "rename", "move", "remove", "kind",
-                                "swap", "replace", "chain", "dirrename", "moveout", "retarget"])
+                                "swap", "replace", "chain", "dirrename", "moveout", "retarget", "nest", "emptyout"])
         ents = list(inv)
         files = [e for e in ents if e[3] == "f"]
         if k == "add":
             return k if self.new_entry(inv) else None
+        if k == "nest":
+            # a chain of directories with a single file at the bottom
+            d = self.new_entry(inv, kind="d")
+            for _ in range(rng.choice([1, 2])):
+                if d is None:
+                    return None
+                d = self.new_entry(inv, par=d[0], kind="d")
+            if d is None:
+                return None
+            return k if self.new_entry(inv, par=d[0], kind=rng.choice("fl")) else None
+        if k == "emptyout":
+            # remove (or move to the root) every file below a top-level directory; keep or drop its directories
+            tops = [e for e in ents if e[3] == "d" and e[1] == 0 and any(x[3] != "d" for x in ents if x[0] in _desc(inv, e[0]))]
+            if not tops:
+                return None
+            t = rng.choice(tops)
+            below = _desc(inv, t[0])
+            drop_dirs = rng.random() < 0.6
+            move = rng.random() < 0.4
+            keep = []
+            for x in inv:
+                if x[0] in below or x[0] == t[0]:
+                    if x[3] == "d":
+                        if not drop_dirs:
+                            keep.append(x)
+                    elif move:
+                        nm = self.free_name([y for y in inv if y[0] not in below] + keep, 0)
+                        if nm is not None:
+                            x[1], x[2] = 0, nm
+                            keep.append(x)
+                else:
+                    keep.append(x)
+            inv[:] = keep
+            return k
         if k == "modify" and files:
             e = rng.choice(files)
             e[4] = self.s(rng.choice([t for t in TEXTS if self.s(t) != e[4]]))
